@@ -31,6 +31,20 @@ func runC13(c *core.Ctx) {
 				return
 			}
 		}
+		if n == 64 {
+			// once per run: inputs far beyond any internal threshold (parallel paths,
+			// float arithmetic on lengths)
+			big := 65536 + 4321
+			for _, size := range []int{1, 2, 1000, big - 1, big, big + 1} {
+				if !partCheck(c, big, size) {
+					return
+				}
+			}
+			if !hugeChunks(c) {
+				return
+			}
+			c.Count("big_inputs_checked", 1)
+		}
 		c.Count("exhaustive_sweeps_completed", 1)
 		c.NonTrivial(core.Mix(13, uint64(n)))
 		if c.WantSample() {
@@ -198,6 +212,43 @@ func eq2D(a, b [][]int) bool {
 	}
 	for i := range a {
 		if !eqSlice(a[i], b[i]) {
+			return false
+		}
+	}
+	return true
+}
+
+// hugeChunks: zero-size elements allow slices longer than 2^53 (where float64
+// arithmetic on lengths stops being exact) at no memory cost. Only piece counts
+// and lengths are judged; sizes are chosen so that few pieces result.
+func hugeChunks(c *core.Ctx) bool {
+	type z = struct{}
+	cases := [][2]int{{1<<53 + 1, 1 << 52}, {1<<53 + 3, 1<<52 + 1}, {1<<62 + 5, 1 << 61}, {1<<55 + 1, 1 << 55}, {1 << 60, math.MaxInt}}
+	for _, cs := range cases {
+		n, size := cs[0], cs[1]
+		in := make([]z, n)
+		var want []int
+		for rest := n; rest > 0; {
+			k := size
+			if rest < size {
+				k = rest
+			}
+			want = append(want, k)
+			rest -= k
+		}
+		got := slices.Chunk(in, size)
+		var gl []int
+		for _, p := range got {
+			gl = append(gl, len(p))
+		}
+		if !eqSlice(gl, want) {
+			c.Violate("Chunk:count[huge]", fmt.Sprintf("Chunk of %d zero-size elements by %d returned pieces of lengths %v, expected %v", n, size, gl, want), nil)
+			return false
+		}
+		var cl []int
+		slices.ChunkFunc(in, size, func(p []z) { cl = append(cl, len(p)) })
+		if !eqSlice(cl, want) {
+			c.Violate("ChunkFunc:sequence[huge]", fmt.Sprintf("ChunkFunc of %d zero-size elements by %d saw pieces of lengths %v, expected %v", n, size, cl, want), nil)
 			return false
 		}
 	}
